@@ -23,6 +23,7 @@ type Options struct {
 	MaxExec     int64     // 0: unlimited
 	Deadline    time.Time // zero: none
 	StopAtFirst bool
+	Policy      int   // default scheduling policy (PolicyOldestFirst, ...)
 	StrictDev   bool  // forced switches to a non-default goroutine cost 1 too
 	Prefix      []int // explore only below this prefix (sharding)
 	PrefixCost  int
@@ -70,6 +71,7 @@ func Explore(sc *Scenario, opt Options) *Stats {
 	}
 	FingerprintIgnoresRunning = opt.Bound < 0
 	StrictDeviations = opt.StrictDev
+	DefaultPolicy = opt.Policy
 	cache := map[uint64]int{} // fingerprint -> best remaining budget explored (+1)
 	stack := []frame{{prefix: append([]int{}, opt.Prefix...), cost: opt.PrefixCost}}
 	seenSig := map[string]bool{}
